@@ -128,6 +128,16 @@ CHECKS = {
         "The induction over steps is glue.",
    ref="DESIGN 5/C13, 4.1, 4.3", note=TB + " Fixed code layout in step harnesses; heap footprint depth 1; FFI paths excluded by the property; opcodes not closed are listed in the evidence.",
    tech="CBMC DFCC contracts + loop contracts (loader, verifier); one-step harness per opcode (VM)"),
+ "C14": dict(
+   cat="proof",
+   text="FRAGMENT (heap layer + one VM step per opcode). Heap layer (DFCC on the real heap.c): vm_retain writes only ref_count, +1; vm_release: count >= 2 => exactly -1 and "
+        "not freed, count 1 => freed with exactly one release of each child (ghost index), count 0 => no effect, heap descriptor well-formed (X over the object kind; "
+        "recursion cut at the release_* helpers, each under a loop contract); array accessors and constructors against ARR_WF / fresh-object contracts. Steps (plain CBMC "
+        "on the real vm_core_execute, 42 opcodes): reference-count census over the step's footprint for an arbitrary object o: freed => not referenced, "
+        "refcount(o) - indegree(o) never decreases (no reference without its count), and is unchanged on well-typed non-error paths (no leak) except where listed. "
+        "Induction over steps and over heap depth, hashmaps, the string constructors / interning, allocating and call opcodes, vm_destroy, churn bound over whole programs: NOT decided.",
+   ref="DESIGN 5/C14, 10.4, 10.12", note=TB + " Stack depth pinned in the step harnesses; element aliasing for string children only; the step harness uses an executable rendering of the vm_release contract (differences listed in the evidence).",
+   tech="CBMC DFCC function + loop contracts on the real heap.c (case split over object kind); per-opcode one-step census harness on the real vm.c"),
  "C15": dict(
    cat="proof",
    text="cop_serialize_value / cop_deserialize_value enforced against contracts written from the wire format, per tag; round trip as a lemma over the two contracts: "
@@ -137,14 +147,14 @@ CHECKS = {
  "C16": dict(
    cat="proof",
    text="The peer is nondeterminism in the OS contracts: cop_deserialize_value on ARBITRARY bytes is memory-safe and returns 0 or a well-formed value (X over tag class, "
-        "recursion by --enforce-contract-rec, loop contract); read_all/write_all/cop_recv_header/cop_send under loop contracts; vm_ffi_call_cop and vm_ffi_cop_stop "
-        "for every peer behaviour: no fault, failure => co-process reaped and fds reset. Unbounded recursion depth is a recorded finding.",
+        "recursion by --enforce-contract-rec on the depth-carrying helper, loop contract, recursion depth bounded by the recursive call's precondition); "
+        "read_all/write_all/cop_recv_header/cop_send under loop contracts; vm_ffi_call_cop and vm_ffi_cop_stop "
+        "for every peer behaviour: no fault, failure => co-process reaped and fds reset; nano_vm ignores SIGPIPE before any co-process is started.",
    ref="DESIGN 5/C16", note=TB + " OS process table, SIGPIPE disposition, timing: not decided. Termination of EINTR retry loops only for finitely many no-progress answers.",
    tech="CBMC DFCC function/loop contracts with adversarial OS stubs on the real cop_protocol.c / vm_ffi.c"),
 }
 
 NOT_YET = {
- "C14": "per-opcode reference-count census and the enforcement of the vm_release contract on the real recursive function were designed (DESIGN 5/C14, 10.4) but are not built; the step harnesses only use the vm_release contract as an assumption; not claimed",
 }
 
 NA = {
